@@ -49,8 +49,10 @@ OPEN_STATEMENTS = [
     'coefficients), contraction_identity_summed (sum_r a+_p a+_r a_r a_q = a+_p a_q (N-hat - 1), = (N-1) a+_p a_q on an '
     'N-particle vector), expectation_is_bilinear_pairing (phi(H) = c + sum D o1 + sum Gamma o2 for every linear functional), the '
     'term identities behind the particle-hole and two-hole maps, inverse pairs, and agreement of the two routes to the 1-hole-RDM. '
-    'Not formalised: the summed two-hole / particle-hole maps as statements about a functional phi (they follow from the term '
-    'identities by the same linearity), and that the Model over Gaussian rationals is the K = Q(i) instance of these statements.',
+    'two_hole_map_correct / particle_hole_map_correct: the formulas of map_two_pdm_to_two_hole_dm / ..._particle_hole_dm hold for '
+    'the RDMs of every linear functional.  Not formalised: the identification of the Model entry functions over Gaussian '
+    'rationals with the K = Q(i) instance of these statements (same formulas, read side by side), and positivity / '
+    'N-representability of the inputs.',
 ]
 
 # ----------------------------------------------------------------------------- dense reference algebra
